@@ -684,7 +684,11 @@ func (fr *Frame) mapUpdate(x *ssa.MapUpdate, st *State) {
 	k := fx.materialize(fr.val(x.Key), mt.Key())
 	v := fx.materialize(fr.val(x.Value), mt.Elem())
 	fx.oblige(st, "panic", fr.siteLabel("nil-map-store", x.Pos(), x), Not(Eq(m, Nil)), x.Pos())
-	fr.eventAsserts("mapupdate:"+typeKey(x.Map.Type()), st, x.Pos())
+	fr.eventAsserts("mapupdate:"+typeKey(x.Map.Type()), st, x.Pos(), map[string]SVal{
+		"mapkey":    {V: tv(k), Ty: mt.Key()},
+		"maptarget": {V: tv(m), Ty: x.Map.Type()},
+		"stored":    {V: tv(v), Ty: mt.Elem()},
+	})
 	fr.ghostAnchors("mapupdate:"+typeKey(x.Map.Type()), st)
 	dk, vk, ks, vs := mapKeys(mt)
 	fx.frameWrite(st, m, dk, x.Pos(), fr)
